@@ -46,6 +46,7 @@ pub struct SinkLog {
     pub calls_while_pending: u64,
     /// Message of the first pending failure (the one that has to be reported).
     pub pending_msg: String,
+    pub vectored_calls: u64,
 }
 
 pub struct Sink {
@@ -116,6 +117,13 @@ impl Write for Sink {
                 panic!("sink panicked on purpose");
             }
         }
+    }
+    /// A native vectored write (as pipes, sockets and files have): the scripted response applies
+    /// to the concatenation of the slices, so a short write may end inside any of them.
+    fn write_vectored(&mut self, bufs: &[io::IoSlice<'_>]) -> io::Result<usize> {
+        let all: Vec<u8> = bufs.iter().flat_map(|b| b.iter().copied()).collect();
+        self.log.borrow_mut().vectored_calls += 1;
+        self.write(&all)
     }
     fn flush(&mut self) -> io::Result<()> {
         Ok(())
@@ -705,7 +713,21 @@ pub fn wop_strategy(hostile: bool) -> BoxedStrategy<WOp> {
         4 => len_strategy().prop_map(WOp::WriteAll),
         4 => len_strategy().prop_map(WOp::WriteAllDefer),
         6 => (0u8..12, bits_strategy()).prop_map(|(ty, bits)| WOp::Digits { ty, bits }),
-        2 => (0u8..=42, 0u8..12, bits_strategy()).prop_map(|(free, ty, bits)| WOp::DigitsNearEnd { free, ty, bits }),
+        2 => (0u8..=42, 0u8..12, bits_strategy(), 0u8..8).prop_map(|(free, ty, bits, rel)| {
+            // half of the time the free space is the text length (or the type's maximal text
+            // length) give or take one
+            let len = digits_text(ty, bits).len() as u8;
+            let max_len = [4u8, 6, 11, 20, 40, 20, 3, 5, 10, 20, 39, 20][ty as usize % 12];
+            let free = match rel {
+                0 => len.saturating_sub(1),
+                1 => len,
+                2 => len + 1,
+                3 => max_len.saturating_sub(1),
+                4 => max_len,
+                _ => free,
+            };
+            WOp::DigitsNearEnd { free, ty, bits }
+        }),
         2 => (0u32..=200, 0u32..=200).prop_map(|(len, fill)| WOp::BufPtr { len, fill }),
         1 => (prop_oneof![Just(CAPACITY as u32), Just(CAPACITY as u32 + 1), (15000u32..=17000)], 0u32..=40)
             .prop_map(|(len, fill)| WOp::BufPtr { len, fill }),
